@@ -196,6 +196,16 @@ package plugin
 //@   ensures inv_client(c)   [C19.new]
 //@   ensures c.config == config && c.address == nil && c.runner == nil && c.client == nil && !c.exited   [C19.new]
 //@   ensures !held(c.l)
+//@   ensures old(config.MinPort) == 0 && old(config.MaxPort) == 0 ==> config.MinPort == 10000 && config.MaxPort == 25000   [C17.ports]
+//@   ensures !(old(config.MinPort) == 0 && old(config.MaxPort) == 0) ==> config.MinPort == old(config.MinPort) && config.MaxPort == old(config.MaxPort)   [C17.ports]
+//@   ensures old(config.StartTimeout) != 0 ==> config.StartTimeout == old(config.StartTimeout)   [C01.e]
+//@   ensures old(config.StartTimeout) == 0 ==> config.StartTimeout == 60000000000   [C01.e]
+//@   ensures old(config.SyncStdout) != nil ==> config.SyncStdout == old(config.SyncStdout)   [C11.wire-g]
+//@   ensures old(config.SyncStderr) != nil ==> config.SyncStderr == old(config.SyncStderr)   [C11.wire-g]
+//@   ensures old(config.Stderr) != nil ==> config.Stderr == old(config.Stderr)   [C10.copy]
+//@   ensures old(config.AllowedProtocols) != nil ==> config.AllowedProtocols == old(config.AllowedProtocols)   [C14.allowed]
+//@   ensures old(config.AllowedProtocols) == nil ==> len(config.AllowedProtocols) == 1 && config.AllowedProtocols[0] == "netrpc"   [C14.allowed]
+//@   ensures config.Cmd == old(config.Cmd) && config.Reattach == old(config.Reattach) && config.VersionedPlugins == old(config.VersionedPlugins) && config.Plugins == old(config.Plugins) && config.TLSConfig == old(config.TLSConfig) && config.AutoMTLS == old(config.AutoMTLS) && config.GRPCBrokerMultiplex == old(config.GRPCBrokerMultiplex) && config.SkipHostEnv == old(config.SkipHostEnv) && config.SecureConfig == old(config.SecureConfig)   [C17.cfg] [C14.cfg]
 
 //@ func NewRPCClient
 //@   at call yamux.Client#1 assert arg0 == conn && arg1 == nil   [C03.c] [C04.bounded]
